@@ -153,9 +153,48 @@ def rand_case_big(rng):
     return g, ev[:k], ev[k:]
 
 
+def rand_case_pump(rng):
+    """5-6 variables; factual root conditions (names that sort first) whose exchange re-subscripts outcomes in several worlds,
+    several copies of one or two names in different worlds as outcomes AND conditions (the pattern on which the re-association
+    adds conditions at a later level)"""
+    n = rng.choice([5, 5, 6])
+    names = list(range(n))
+    nroots = rng.randint(1, 3)
+    di = []
+    for i in range(n):
+        for j in range(i + 1, n):
+            if rng.random() < (0.5 if i < nroots else 0.35):
+                di.append([i, j])
+    bi = [[i, j] for i in range(n) for j in range(i + 1, n) if rng.random() < 0.08]
+    g = {"nodes": names, "di": di, "bi": bi}
+    inner = names[nroots:]
+    worlds = []
+    for _ in range(rng.randint(2, 4)):
+        k = rng.randint(1, 2)
+        worlds.append(tuple((m, rng.choice("mmmmp")) for m in rng.sample(inner, min(k, len(inner)))))
+    shared = rng.sample(inner, min(len(inner), rng.randint(1, 2)))
+    items = {}
+    for _ in range(rng.randint(3, 8)):
+        nm = rng.choice(shared) if rng.random() < 0.6 else rng.choice(inner)
+        var = K.mkvar(nm, rng.choice(worlds))
+        items[C.enc(var)] = [var, rng.choice("mmmmp")]
+    ev = list(items.values())
+    if len(ev) < 2:
+        return None
+    rng.shuffle(ev)
+    k = rng.randint(1, len(ev) - 1)
+    outs, conds = ev[:k], ev[k:]
+    for r in names[:nroots]:
+        if rng.random() < 0.8:
+            conds.insert(rng.randint(0, len(conds)), [K.mkvar(r), "m"])
+    return g, outs, conds
+
+
 def random_search(n, seed):
     global rand_case
-    if seed >= 1000:
+    if seed >= 2000:
+        rand_case = rand_case_pump
+    elif seed >= 1000:
         rand_case = rand_case_big
     rng = random.Random(seed)
     model = C.LeanModel()
